@@ -453,6 +453,64 @@ def main(run):
                     if len(stream) > 1 else []
                 cuts = gen_stream.cuts_to_token(pts, len(stream))
             tl.append("ws %d %s %s" % (r.choice([0, 0, 1]), stream.hex(), cuts))
+    # WebSocket CLIENT session (the peer is a hostile server): response handshake, unmasked
+    # frames, mutations; and on both roles frames whose 7+16 / 7+64 bit length fields take their
+    # extreme values (top bit set, all ones, just above every power of two) followed by 0..5
+    # bytes in the same arrival
+    if hasattr(gen_stream, "gen_wsc_stream"):
+        canon_c = None
+        for i in range(200 if quick else 6000):
+            stream, meta = gen_stream.gen_wsc_stream(r, small=(i % 3 == 0))
+            if canon_c is None and meta["hs"] == "ok":
+                canon_c = stream[:meta["hslen"]]
+            x = r.random()
+            if x < 0.45 and len(stream) > meta["hslen"] + 1:
+                body = stream[meta["hslen"]:]
+                for _ in range(r.choice([1, 2, 3])):
+                    body = gen_wire.mutate(r, body)
+                stream = stream[:meta["hslen"]] + body
+            elif x < 0.55:
+                stream = gen_wire.mutate(r, stream)
+            y = r.random()
+            if y < 0.35:
+                cuts = "-"
+            elif y < 0.5:
+                cuts = "x1"
+            else:
+                pts = sorted(set(r.randrange(1, len(stream)) for _ in range(r.choice([1, 2, 3, 5])))) \
+                    if len(stream) > 1 else []
+                cuts = gen_stream.cuts_to_token(pts, len(stream))
+            tl.append("wsc 0 %s %s" % (stream.hex(), cuts))
+        canon_s = None
+        for _ in range(50):
+            st, meta = gen_stream.gen_ws_stream(r, small=True)
+            if meta.get("hs") in ("ok", None) and meta.get("hslen"):
+                canon_s = st[:meta["hslen"]]
+                if meta.get("hs") == "ok":
+                    break
+        ext = [1 << 63, (1 << 63) + 5, (1 << 64) - 1, (1 << 64) - 14, (1 << 62) + 1, (1 << 32),
+               (1 << 32) - 1, (1 << 31), (1 << 31) - 1, 65536, 0xFFFFFFFFFFFFFFF2]
+        okmsg = gen_wire.py_serialize("ws", 0, 69, 0, b"\x01", [], b"x")
+        for sz in ext:
+            for ntrail in (0, 1, 4, 5):
+                for role, hsb in (("wsc", canon_c), ("ws", canon_s)):
+                    if hsb is None:
+                        continue
+                    for op in (0x82, 0x02, 0x89):
+                        mb = 0x80 if role == "ws" else 0
+                        h = bytes([op, mb | 127]) + sz.to_bytes(8, "big") + (b"\x01\x02\x03\x04" if mb else b"")
+                        st = hsb + gen_stream.ws_frame(okmsg, mask=(b"\x00\x00\x00\x00" if mb else None)) \
+                            + h + gen_wire.rbytes(r, ntrail)
+                        for cuts in ("-", gen_stream.cuts_to_token([len(hsb)], len(st))):
+                            tl.append("%s 0 %s %s" % (role, st.hex(), cuts))
+        for sz16 in (0xFFFF, 0x8000, 1473, 126, 0):
+            for role, hsb in (("wsc", canon_c), ("ws", canon_s)):
+                if hsb is None:
+                    continue
+                mb = 0x80 if role == "ws" else 0
+                h = bytes([0x82, mb | 126]) + sz16.to_bytes(2, "big") + (b"\x01\x02\x03\x04" if mb else b"")
+                st = hsb + h + gen_wire.rbytes(r, 3)
+                tl.append("%s 0 %s -" % (role, st.hex()))
     # one driver process per 250 streams: the driver keeps a few descriptors per case open and
     # libcoap's WebSocket close path uses select(), i.e. FD_SET, which is only defined for
     # descriptors below FD_SETSIZE (1024) - a limit of the library that is not peer-controlled
